@@ -1804,12 +1804,17 @@ func (trd *tarReadData) linkAdd(src, tgt string) bool {
 }
 
 func (trd *tarReadData) linkList(tgt string) ([]string, error) {
-	list := trd.links[tgt]
-	for _, entry := range list {
-		if entry == tgt {
+	list := slices.Clone(trd.links[tgt])
+	// follow links to links, the list grows while it is processed
+	for i := 0; i < len(list); i++ {
+		if list[i] == tgt {
 			return nil, fmt.Errorf("symlink loop encountered for %s", tgt)
 		}
-		list = append(list, trd.links[entry]...)
+		for _, entry := range trd.links[list[i]] {
+			if !slices.Contains(list, entry) {
+				list = append(list, entry)
+			}
+		}
 	}
 	return list, nil
 }
